@@ -375,6 +375,13 @@ def run_device_translate(mutate=None):
     return dict(obls=obls, paths=n_, sources=[L.info()], consistent=sym.consistent())
 
 
+def _terminal_info(m=None):
+    """'each terminal's length equals the boundary length it covers' (shared unit with C06 / C01): sites, edges and length are computed from the
+    CURRENT mesh, terminals and coherence length, the length in length units"""
+    from checks import c06
+    return c06.run_terminal_info(m)
+
+
 def run_native_quick(mutate=None):
     """BOUNDED stand-in executed also in the quick tier (reduced family): postconditions of the real mesher"""
     def body():
@@ -389,6 +396,7 @@ def units():
             Unit("EdgeMesh.from_mesh", E_ + ":EdgeMesh.from_mesh", run_edge_geometry, props=["C07"], timeout=300),
             Unit("dual length rule lemmas", "lemma over the circumcentre contract", run_dual_lemma, props=["C07"], timeout=120),
             Unit("generate_mesh[wrapper around Triangle]", G_ + ":generate_mesh", run_mesher_wrapper, props=["C07"], timeout=300),
+            Unit("Device.terminal_info", DV_ + ":Device.terminal_info", _terminal_info, props=["C07", "C06"], timeout=300),
             Unit("Device.translate[mesh]", DV_ + ":Device.translate", run_device_translate, props=["C07"], timeout=300),
             Unit("make_mesh postconditions [bounded]", "tdgl.device.device:Device.make_mesh (Triangle, qhull)", run_native_quick, props=["C07"], timeout=600, kind="bounded")]
 
@@ -545,6 +553,11 @@ def replay_scope(unit, obl):
 
 def replay(unit, obl):
     import tdgl
+    if unit == "Device.terminal_info":
+        from checks import c06
+        r = c06.replay_terminal_info(obl)
+        if r.get("confirmed"):
+            return r
     bad, n = native(0, reduced=False)
     if bad:
         return dict(confirmed=True, failing_input=bad[0], n_failing=len(bad), evaluations=n, tdgl_file=tdgl.__file__)
